@@ -332,4 +332,30 @@ def run_case(case, seed):
                     K = np.kron(K, mats[c])
                 W[:, :, c] = K
             r.close(key + ':kronecker-power', np.asarray(F), W, 1e-12)
+    # call history shared by every tensor-train constructor: the returned object is the caller's -- it is edited in place (a core
+    # scaled, the train truncated to rank one), then the same model is requested again: a fresh object with the model's value
+    build = {'co_oxidation': lambda: mdl.co_oxidation(case['order'], case['k'], cyclic=case['cyclic']) if case['order'] <= 3 else None,
+             'toll_station': lambda: mdl.toll_station(case['lanes'], case['cars']) if (case['cars'] + 1) ** case['lanes'] <= 64 else None,
+             'two_step': lambda: mdl.two_step_destruction(*case['k'], case['mm']) if case['mm'] <= 1 else None,
+             'qfa': lambda: mdl.qfa(), 'qfan': lambda: mdl.qfan(case['n']) if case['n'] <= 1 else None,
+             'ising': lambda: mdl.ising(case['d'], case['J'], case['h']) if case['d'] <= 5 else None,
+             'exciton': lambda: mdl.exciton_chain(case['n'], case['alpha'], case['beta']) if case['n'] <= 5 else None,
+             'fpu': lambda: mdl.fpu_coefficients(case['d']) if case['d'] <= 4 else None,
+             'kuramoto': lambda: mdl.kuramoto_coefficients(case['d'], np.linspace(-5, 5, case['d'])) if case.get('w') == 'lin' else None}.get(m)
+    if build is not None:
+        from scikit_tt.tensor_train import TT as _TT
+        with r.op(key + ':history:call'):
+            T1 = build()
+            if isinstance(T1, _TT) and meta_problem(T1) is None:
+                from vt.core import dense_cores as _dc
+                v1 = _dc(T1.cores).copy()
+                T1.cores[0][...] = 2 * T1.cores[0]
+                T1.cores[-1][...] = 0 * T1.cores[-1]
+                T1.ortho(max_rank=1)
+                T2 = build()
+                r.true(key + ':history:fresh-object', T2 is not T1 and not any(np.shares_memory(a_, b_) for a_ in T1.cores for b_ in T2.cores),
+                       'the second request returned the object (or core arrays) handed out before')
+                if meta_problem(T2) is None:
+                    v2 = _dc(T2.cores)
+                    r.true(key + ':history:value', v1.shape == v2.shape and np.array_equal(v1, v2), 'the model changed after the caller edited an earlier result in place')
     return r
